@@ -166,8 +166,17 @@ pub fn run(tier: &str, seed: u64, em: &mut Emitter) {
             h.insert("sha256".into(), CanonicalJsonValue::String("c3RhbGU".into()));
             h.insert("md5".into(), CanonicalJsonValue::String("x".into()));
             stale.insert("hashes".into(), CanonicalJsonValue::Object(h));
-            emit(em, "systematic-stale-hash", 2, v, &stale);
             emit(em, "systematic-stale-hash", 1, v, &stale);
+            // hash_and_sign_event needs `signatures` to be absent or an object of objects
+            stale.remove("signatures");
+            emit(em, "systematic-stale-hash", 2, v, &stale);
+            let mut set = CanonicalJsonObject::new();
+            set.insert("ed25519:0".into(), CanonicalJsonValue::String("AAAA".into()));
+            let mut sigs = CanonicalJsonObject::new();
+            sigs.insert("other".into(), CanonicalJsonValue::Object(set));
+            stale.insert("signatures".into(), CanonicalJsonValue::Object(sigs));
+            stale.insert("unsigned".into(), CanonicalJsonValue::Object(CanonicalJsonObject::new()));
+            emit(em, "systematic-stale-hash", 2, v, &stale);
         }
     }
     // base64 decoding as ruma configures it (indifferent padding, trailing bits allowed): exhaustive
